@@ -1,6 +1,6 @@
 /* rb_drv.c - ringbuf.c under the vrt interleaving runtime (C05, C07).
  * Context 1 = producer, context 0 = consumer; programs given on the Reset line:
- *   Reset len start np (kind d)*np nc (kind)*nc     kind: 0 put, 1 putchar, 2 empty / 0 get, 1 empty
+ *   Reset len start np (kind d)*np nc (kind)*nc     kind: 0 put, 1 putchar, 2 empty / 0 get, 1 empty, 2 wait (poll until not empty)
  *   S c          context c executes its next atomic operation
  *   Gen seed nexec irq */
 #define _GNU_SOURCE
@@ -41,6 +41,11 @@ static void consumer(void *arg)
 		if (ck[i] == 0) {
 			int d = ringbuf_get(rb);
 			vrt_note("get", d);
+		} else if (ck[i] == 2) {
+			/* the polling idiom, nothing opaque inside the loop */
+			while (ringbuf_empty(rb))
+				;
+			vrt_note("wait", 0);
 		} else {
 			bool e = ringbuf_empty(rb);
 			vrt_note("empty", e);
@@ -90,7 +95,7 @@ static void reset(void)
 		printf("%s{\"k\":\"%s\",\"d\":%d}", i ? "," : "", pk[i] == 2 ? "empty" : pk[i] ? "putchar" : "put", pk[i] == 2 ? 0 : pd[i]);
 	printf("],\"cp\":[");
 	for (int i = 0; i < nc; i++)
-		printf("%s\"%s\"", i ? "," : "", ck[i] ? "empty" : "get");
+		printf("%s\"%s\"", i ? "," : "", ck[i] == 2 ? "wait" : ck[i] ? "empty" : "get");
 	printf("]}}\n");
 	vrt_clear_events();
 	vrt_spawn(consumer, NULL);
@@ -149,7 +154,7 @@ static void gen(long seed, int nexec, int irq)
 		np = 1 + drv_below(10);
 		nc = 1 + drv_below(12);
 		for (int i = 0; i < np; i++) { pk[i] = drv_below(4) == 0; if (drv_below(6) == 0) pk[i] = 2; pd[i] = drv_below(3) ? bytes[drv_below(8)] : (int)drv_below(256); }
-		for (int i = 0; i < nc; i++) ck[i] = drv_below(4) == 0;
+		for (int i = 0; i < nc; i++) { ck[i] = drv_below(4) == 0; if (drv_below(7) == 0) ck[i] = 2; }
 		reset();
 		int top = -1, started[2] = { 0, 0 };
 		int budget = 400;
